@@ -733,7 +733,42 @@ def o_count_model(ctx, case):
     return None
 
 
-ORACLES = {'count_model': o_count_model, 'ra_corner': o_ra_corner, 'frame': o_frame, 'scramble': o_scramble, 'corr': o_corr}
+def o_scramble_corner(ctx, case):
+    """directed 2*pi corner of the time scrambling *methods* (not only of the coordinate transform) on data sets with narrow
+    dtypes: the azimuths are crafted for the times the method generates with this seed (learnt from a first run with a twin
+    random state: the times depend on the random stream and the number of events only), so that the scrambled right ascension
+    lands a few 1e-8 below 2*pi; whatever dtype the method gives the generated `ra` field, its values must lie in [0, 2*pi)."""
+    from skyllh.core.scrambling import DataScrambler
+    from skyllh.i3.utils.coords import azi_to_ra_transform
+    w = pf.World(case['spec'])
+    scr = case['scr']
+    if len(w.data.exp) == 0:
+        return None
+    first = DataScrambler(w.scr[scr]()).scramble_data(w.RSS(seed=case['seed']), w.ds, w.data.exp, copy=True)
+    times = np.asarray(first['time'], dtype=np.float64)
+    base = azi_to_ra_transform(np.zeros_like(times), times)        # the angle the azimuth is subtracted from, in [0, 2*pi)
+    deltas = np.resize(np.array(case['deltas'], dtype=np.float64), len(times))
+    azi = base + deltas                                              # scrambled ra = mod(base - azi) = 2*pi - delta
+    azi = np.where((azi >= 0) & (azi < pf.TWO_PI), azi, base)
+    w.exp['azi'] = azi.astype(np.float64 if case.get('azi64') else w.exp['azi'].dtype)
+    stored = pf.sha(w.data.exp)
+    out = DataScrambler(w.scr[scr]()).scramble_data(w.RSS(seed=case['seed']), w.ds, w.data.exp, copy=True)
+    if not np.array_equal(np.asarray(out['time'], dtype=np.float64), times):
+        return None        # (the times depend on the data after all: the corner cannot be placed this way)
+    ra = np.asarray(out['ra'])
+    ra64 = ra.astype(np.float64)
+    bad = ~((ra64 >= 0) & (ra64 < pf.TWO_PI))
+    if np.any(bad):
+        i = int(np.argmax(bad))
+        return ('%s scrambling of a data set with %s ra / %s azi: event %d (azimuth %r, generated time %r) gets the right ascension %r '
+                '(dtype %s), which is not inside [0, 2*pi)' % (scr, w.data.exp['ra'].dtype, w.data.exp['azi'].dtype, i,
+                                                                 float(w.data.exp['azi'][i]), float(times[i]), float(ra64[i]), ra.dtype))
+    if pf.sha(w.data.exp) != stored:
+        return '%s: the stored experimental data changed' % scr
+    return None
+
+
+ORACLES = {'scramble_corner': o_scramble_corner, 'count_model': o_count_model, 'ra_corner': o_ra_corner, 'frame': o_frame, 'scramble': o_scramble, 'corr': o_corr}
 
 
 def shrink(case, mode):
@@ -803,6 +838,18 @@ def run(ctx):
         res = o_ra_corner(ctx, case)
         if res:
             ctx.violation('ra_corner', case, res, signature='C07/scramble/azi_to_ra/half-open-range')
+    # ---- the 2*pi corner through the time scrambling methods, narrow and wide dtypes
+    for i in range(ctx.n(60, 600)):
+        spec = pf.gen_spec(rng)
+        spec['n_exp'] = rng.choice([3, 8, 13, 30])
+        spec['narrow'] = rng.random() < 0.8
+        case = {'spec': spec, 'scr': rng.choice(['i3time', 'seasonal']), 'seed': rng.randrange(10**6), 'azi64': rng.random() < 0.5,
+                'deltas': [1e-9, 3e-8, 6e-8, 1.2e-7, 4.4e-16, 0.0, 2e-8, -1e-9, 5e-8, 1e-8]}
+        ctx.count('scramble_corner:%s:%s' % (case['scr'], 'float32' if spec['narrow'] else 'float64'))
+        ctx.case(key=('scrcorner', case), desc={'oracle': 'scramble_corner', 'case': case} if i % 299 == 0 else None)
+        res = o_scramble_corner(ctx, case)
+        if res:
+            ctx.violation('scramble_corner', case, res, signature='C07/scramble/%s/ra-corner' % case['scr'])
     # ---- byte snapshots over histories (incl. Analysis.do_trial)
     counts = []
     maxlen = ctx.n(4, 6)
